@@ -448,14 +448,13 @@ def writeBlks (st : St) (addr : Nat) (block : List UInt8) (nf : Bool) : List Blk
 
 /-- why `write` rejects -/
 def WriteRejects (st : St) (block : List UInt8) : Prop :=
-  block ≠ [] ∧ (block.length % st.cfg.al ≠ 0 ∨ block.length > st.cfg.ps ∨
+  block ≠ [] ∧ (block.length % st.cfg.al ≠ 0 ∨ block.length > st.cfg.ps ∨ st.count = 4294967295 ∨
     (if st.isVec then 9223372036854775807 - st.pos < 512 else st.len - st.pos < 512))
 
 theorem write_spec (st : St) (hI : Inv st) (addr : Nat) (ha : addr < 4294967296) (block : List UInt8) (nf : Bool) :
     (∃ st', write st addr block nf = (st', .ok ()) ∧ Inv st' ∧ Extends st st' (writeBlks st addr block nf) ∧
         ¬ WriteRejects st block) ∨
-    (∃ e, write st addr block nf = (st, .err e) ∧ WriteRejects st block) ∨
-    (∃ st' s, write st addr block nf = (st', .panic s) ∧ st.count = 4294967295 ∧ ¬ WriteRejects st block) := by
+    (∃ e, write st addr block nf = (st, .err e) ∧ WriteRejects st block) := by
   obtain ⟨hps1, hps2, hal1, hdiv⟩ := hI.valid
   unfold write
   by_cases hb : block = []
@@ -466,26 +465,24 @@ theorem write_spec (st : St) (hI : Inv st) (addr : Nat) (ha : addr < 4294967296)
     simp only [Bool.false_eq_true, if_false]
     rw [if_neg (by omega)]
     by_cases h1 : block.length % st.cfg.al ≠ 0
-    · rw [if_pos h1]; exact .inr (.inl ⟨_, rfl, hb, .inl h1⟩)
+    · rw [if_pos h1]; exact .inr ⟨_, rfl, hb, .inl h1⟩
     rw [if_neg h1]
     by_cases h2 : block.length > st.cfg.ps
-    · rw [if_pos h2]; exact .inr (.inl ⟨_, rfl, hb, .inr (.inl h2)⟩)
+    · rw [if_pos h2]; exact .inr ⟨_, rfl, hb, .inr (.inl h2)⟩
     rw [if_neg h2]
+    by_cases hcnt : st.count = 4294967295
+    · rw [if_pos hcnt]; exact .inr ⟨_, rfl, hb, .inr (.inr (.inl hcnt))⟩
+    rw [if_neg hcnt]
     rcases checkWrite_cases st 512 hI.posLe hI.lenLe hI.vec with ⟨e, he, hc⟩ | ⟨l, hl, hl1, hl2, hl3, hl4, hc⟩
-    · rw [he]; exact .inr (.inl ⟨_, rfl, hb, .inr (.inr hc)⟩)
+    · rw [he]; exact .inr ⟨_, rfl, hb, .inr (.inr (.inr hc))⟩
     · rw [hl]
       dsimp only
       have hnr : ¬ WriteRejects st block := by
-        intro ⟨_, h⟩; rcases h with h | h | h
+        intro ⟨_, h⟩; rcases h with h | h | h | h
         · exact h1 h
         · exact h2 h
+        · exact hcnt h
         · exact hc h
-      by_cases hcnt : st.count = 4294967295
-      · have : encode { st with len := l } addr block (st.cfg.ps % 4294967296) nf = .panic "encode: count += 1" := by
-          unfold encode
-          rw [if_neg (by simp only; omega), if_neg (by simp only; omega), if_neg (by omega), if_pos (by simp only; omega)]
-        rw [this]
-        exact .inr (.inr ⟨_, _, rfl, hcnt, hnr⟩)
       · have hcl := hI.cnt
         rw [encode_ok { st with len := l } addr block _ nf (by simp only; omega) (by simp only; omega) (by omega)
           (by simp only; omega)]
@@ -824,35 +821,40 @@ theorem run_cons (st : St) (op : Op) (ops : List Op) :
     run st (op :: ops) = ((run (step st op).1 ops).1, (step st op).2 :: (run (step st op).1 ops).2) := rfl
 
 /-- one step from a state satisfying the invariant -/
-theorem step_spec (st : St) (hI : Inv st) (op : Op) (ha : op.addr < 4294967296)
-    (hnp : ∀ s, (step st op).2 ≠ .panic s) :
+theorem step_spec (st : St) (hI : Inv st) (op : Op) (ha : op.addr < 4294967296) :
     Inv (step st op).1 ∧ Extends st (step st op).1 (stepBlks st op) ∧
       ((∃ n, (step st op).2 = .ok n) ∨ ((∃ e, (step st op).2 = .err e) ∧ (step st op).1 = st)) := by
   have hnil : Extends st st [] := ⟨rfl, by simp [encAll], by simp, rfl, by simp [AllOk], by simp⟩
   cases op with
   | write a d nf =>
-    rcases write_spec st hI a ha d nf with ⟨st', h, hI', hE, _⟩ | ⟨e, h, _⟩ | ⟨st', s, h, _⟩
+    rcases write_spec st hI a ha d nf with ⟨st', h, hI', hE, _⟩ | ⟨e, h, _⟩
     · simp only [step, stepBlks, h]; exact ⟨hI', hE, .inl ⟨0, rfl⟩⟩
     · simp only [step, stepBlks, h]; exact ⟨hI, hnil, .inr ⟨⟨e, rfl⟩, trivial⟩⟩
-    · exfalso; apply hnp s; simp only [step, h]
   | writeAll a d nf =>
     rcases writeAll_spec st hI a ha d nf with ⟨st', h, hI', hE, _⟩ | ⟨e, h, _⟩
     · simp only [step, stepBlks, h]; exact ⟨hI', hE, .inl ⟨_, rfl⟩⟩
     · simp only [step, stepBlks, h]; exact ⟨hI, hnil, .inr ⟨⟨e, rfl⟩, trivial⟩⟩
 
 theorem run_spec (ops : List Op) : ∀ (st : St), Inv st → (∀ op ∈ ops, op.addr < 4294967296) →
-    (∀ r ∈ (run st ops).2, ∀ s, r ≠ .panic s) →
-    Inv (run st ops).1 ∧ Extends st (run st ops).1 (runBlks st ops).flatten := by
+    Inv (run st ops).1 ∧ Extends st (run st ops).1 (runBlks st ops).flatten ∧
+      ∀ r ∈ (run st ops).2, ∀ s, r ≠ .panic s := by
   induction ops with
   | nil =>
-    intro st hI _ _
-    exact ⟨hI, rfl, by simp [run, runBlks, encAll], by simp [run, runBlks], rfl, by simp [runBlks, AllOk], by simp [runBlks]⟩
+    intro st hI _
+    exact ⟨hI, ⟨rfl, by simp [run, runBlks, encAll], by simp [run, runBlks], rfl, by simp [runBlks, AllOk], by simp [runBlks]⟩,
+      by simp [run]⟩
   | cons op ops ih =>
-    intro st hI ha hnp
-    rw [run_cons] at hnp ⊢
-    obtain ⟨hI1, hE1, _⟩ := step_spec st hI op (ha op (by simp)) (fun s => hnp _ (by simp) s)
-    obtain ⟨hI2, hE2⟩ := ih (step st op).1 hI1 (fun o ho => ha o (by simp [ho])) (fun r hr => hnp r (by simp [hr]))
-    refine ⟨hI2, ?_⟩
+    intro st hI ha
+    rw [run_cons]
+    obtain ⟨hI1, hE1, hr1⟩ := step_spec st hI op (ha op (by simp))
+    obtain ⟨hI2, hE2, hnp2⟩ := ih (step st op).1 hI1 (fun o ho => ha o (by simp [ho]))
+    refine ⟨hI2, ?_, ?_⟩
+    case refine_2 =>
+      intro r hr s
+      rcases List.mem_cons.mp hr with h | h
+      · subst h
+        rcases hr1 with ⟨n, h⟩ | ⟨⟨e, h⟩, _⟩ <;> rw [h] <;> simp
+      · exact hnp2 r h s
     simp only [runBlks, List.flatten_cons]
     refine ⟨by rw [hE2.cfg, hE1.cfg], ?_, ?_, by rw [hE2.isVec, hE1.isVec], ?_, ?_⟩
     · rw [hE2.out, hE1.out, hE1.cfg, encAll_append, List.append_assoc]
@@ -878,12 +880,11 @@ def opImage (cfg : Cfg) (op : Op) (r : Res Nat) (x : Nat) : Option UInt8 :=
     | .writeAll a d _ => expectImage a d (roundUp d.length cfg.al) x)
   | _ => none
 
-theorem stepBlks_image (st : St) (hI : Inv st) (op : Op) (ha : op.addr < 4294967296)
-    (hnp : ∀ s, (step st op).2 ≠ .panic s) (t x : Nat) :
+theorem stepBlks_image (st : St) (hI : Inv st) (op : Op) (ha : op.addr < 4294967296) (t x : Nat) :
     image ((stepBlks st op).map (toBlock st.cfg t)) x = opImage st.cfg op (step st op).2 x := by
   cases op with
   | write a d nf =>
-    rcases write_spec st hI a ha d nf with ⟨st', h, _, _, hnr⟩ | ⟨e, h, _⟩ | ⟨st', s, h, _⟩
+    rcases write_spec st hI a ha d nf with ⟨st', h, _, _, hnr⟩ | ⟨e, h, _⟩
     · simp only [step, stepBlks, h, opImage]
       by_cases hd : d = []
       · subst hd; simp [writeBlks, image]
@@ -893,7 +894,6 @@ theorem stepBlks_image (st : St) (hI : Inv st) (op : Op) (ha : op.addr < 4294967
         · exact absurd ⟨hd, .inr (.inl h')⟩ hnr
         · exact h'
     · simp only [step, stepBlks, h, opImage]; rfl
-    · exfalso; apply hnp s; simp only [step, h]
   | writeAll a d nf =>
     rcases writeAll_spec st hI a ha d nf with ⟨st', h, _, _, _⟩ | ⟨e, h, _⟩
     · simp only [step, stepBlks, h, opImage, writeAllBlks]
@@ -911,24 +911,20 @@ theorem run_length (ops : List Op) : ∀ st, (run st ops).2.length = ops.length 
   | cons op ops ih => intro st; rw [run_cons]; simp [ih]
 
 theorem runBlks_image (ops : List Op) : ∀ (st : St), Inv st → (∀ op ∈ ops, op.addr < 4294967296) →
-    (∀ r ∈ (run st ops).2, ∀ s, r ≠ .panic s) →
     ∀ (i : Nat) (h1 : i < (runBlks st ops).length) (h2 : i < ops.length) (h3 : i < (run st ops).2.length) (t x : Nat),
       image (((runBlks st ops)[i]).map (toBlock st.cfg t)) x = opImage st.cfg ops[i] ((run st ops).2[i]) x := by
   induction ops with
-  | nil => intro st _ _ _ i h1; simp [runBlks] at h1
+  | nil => intro st _ _ i h1; simp [runBlks] at h1
   | cons op ops ih =>
-    intro st hI ha hnp i h1 h2 h3 t x
-    have hnp' : (∀ s, (step st op).2 ≠ .panic s) ∧ (∀ r ∈ (run (step st op).1 ops).2, ∀ s, r ≠ .panic s) := by
-      rw [run_cons] at hnp
-      exact ⟨fun s => hnp _ (by simp) s, fun r hr => hnp r (by simp [hr])⟩
-    obtain ⟨hI1, hE1, _⟩ := step_spec st hI op (ha op (by simp)) hnp'.1
+    intro st hI ha i h1 h2 h3 t x
+    obtain ⟨hI1, hE1, _⟩ := step_spec st hI op (ha op (by simp))
     cases i with
     | zero =>
       simp only [runBlks, List.getElem_cons_zero, run_cons]
-      exact stepBlks_image st hI op (ha op (by simp)) hnp'.1 t x
+      exact stepBlks_image st hI op (ha op (by simp)) t x
     | succ i =>
       simp only [runBlks, List.getElem_cons_succ, run_cons]
-      have := ih (step st op).1 hI1 (fun o ho => ha o (by simp [ho])) hnp'.2 i
+      have := ih (step st op).1 hI1 (fun o ho => ha o (by simp [ho])) i
         (by simp [runBlks] at h1; omega) (by simp at h2; omega) (by rw [run_cons] at h3; simp at h3; omega) t x
       rw [hE1.cfg] at this
       exact this
